@@ -218,6 +218,52 @@ def f_num(rng, sid):
     return sc
 
 
+def f_argevt(rng, sid):
+    """WRITE lines with several arguments while unsolicited events are formatted, sent and finished in the same service
+    calls: the two machines keep separate variable cursors, so every argument must still reach its own variable"""
+    sc = Scenario(sid, cap=rng.choice([2, 3, 8]), buf=rng.choice([64, 128]) * 2, uns=rng.choice([-1, 40]), mutex=0)
+    sc.group()
+    kinds = rng.choice([(0, 1, 2), (3, 4, 1), (0, 1, 2, 3, 4)])
+    sc.cmd(_numcmd(rng, sc, nvars=rng.randint(2, 5), types=kinds, accs=(0, 0, 0, 2), name=b"+W"))
+    ea = sc.slot(1, b"\x07")
+    eb = sc.slot(2, b"\x01\x02")
+    sc.cmd(Cmd(b"+E", rng.choice([None, b"d"]), rng.choice(["", "r", "rt"]), [Var(1, ea, 1), Var(2, eb, 2)][:rng.choice([1, 2])], group=-1))
+    sc.cmd(Cmd(b"+Q", None, "", None, group=-1))        # an event that fails at once
+    for _ in range(rng.randint(2, 5)):
+        c = sc.cmds[0]
+        parts = []
+        k = rng.choice([len(c.vars)] * 3 + [rng.randint(1, len(c.vars))])
+        for i in range(k):
+            v = c.vars[i]
+            bits = 8 * v.size if v.size in (1, 2, 4) else 16
+            if v.type == 2:
+                a = gen.hex_text(rng, bits)
+            elif v.type in (0, 1):
+                a = gen.int_text(rng, bits, v.type == 0)
+            elif v.type == 3:
+                a = hx(bytes(rng.randrange(256) for _ in range(rng.randint(1, max(1, min(v.size, 4)))))).encode()[1:]
+            else:
+                a = b'"' + bytes(rng.choice(b"abcxyz ,") for _ in range(rng.randint(0, max(0, min(v.size - 1, 5))))) + b'"'
+            parts.append(a)
+        line = b"AT+W=" + b",".join(parts) + rng.choice([b"\n", b"\r\n"])
+        ntrig = rng.randint(1, 3)
+        for _ in range(rng.randint(0, 2)):
+            sc.op("trig %d %d" % (rng.choice([1, 1, 2]), rng.choice([1, 3])))
+            ntrig -= 1
+            for _ in range(rng.randint(0, 25)):
+                sc.op("svc 1 1")
+        sc.inp(line)
+        # an event takes about a dozen calls from trigger to its end; the arguments are parsed one per call after the LF
+        for j in range(len(line) + len(c.vars) + rng.randint(0, 6)):
+            sc.op("svc 1 1")
+            near = j >= len(line) - rng.choice([4, 10, 16, 24])
+            if ntrig > 0 and rng.random() < (0.3 if near else 0.03):
+                sc.op("trig %d %d" % (rng.choice([1, 1, 2]), rng.choice([1, 3])))
+                ntrig -= 1
+        drain(sc, 3000)
+    return sc
+
+
 def f_buf(rng, sid):
     sc = Scenario(sid, cap=1, buf=rng.choice([96, 160, 300]) * 2, mutex=0)
     sc.group()
@@ -935,7 +981,7 @@ def f_woevt(rng, sid):
 
 
 FAMILIES = {
-    "woevt": f_woevt, "listevt": f_listevt, "rnext": f_rnext, "report": f_report, "wide": f_wide, "unlock": f_unlock, "flagmid": f_flagmid, "holdtick": f_holdtick,
+    "woevt": f_woevt, "listevt": f_listevt, "rnext": f_rnext, "report": f_report, "wide": f_wide, "unlock": f_unlock, "argevt": f_argevt, "flagmid": f_flagmid, "holdtick": f_holdtick,
     "mixed": f_mixed, "lines": f_lines, "table": f_table, "num": f_num, "buf": f_buf, "cap": f_cap, "ret": f_ret,
     "sched": f_sched, "evt": f_evt, "hold": f_hold, "mutex": f_mutex, "list": f_list, "access": f_access,
     "fit": f_fit, "bigambig": f_bigambig, "tabevt": f_tabevt,
@@ -953,8 +999,8 @@ PLAN = {
     "C01": [("lines", 60, 600), ("cap", 40, 400), ("sched", 40, 400), ("mixed", 40, 400), ("table", 20, 200)],
     "C02": [("table", 50, 800), ("tabevt", 40, 500), ("bigambig", 6, 40), ("unlock", 30, 400), ("lines", 50, 500), ("mixed", 30, 300)],
     "C03": [("cap", 60, 600), ("fit", 60, 600), ("buf", 40, 500), ("evt", 30, 300), ("mixed", 50, 600), ("list", 20, 300), ("num", 20, 300), ("report", 60, 800)],
-    "C04": [("num", 120, 2000), ("lines", 30, 300), ("mixed", 20, 200)],
-    "C05": [("buf", 120, 2000), ("lines", 30, 300), ("mixed", 20, 200)],
+    "C04": [("num", 120, 2000), ("argevt", 40, 500), ("lines", 30, 300), ("mixed", 20, 200)],
+    "C05": [("buf", 120, 2000), ("argevt", 40, 500), ("lines", 30, 300), ("mixed", 20, 200)],
     "C06": [("cap", 100, 1200), ("lines", 30, 300), ("ret", 60, 500), ("rnext", 40, 300), ("report", 30, 300), ("mixed", 20, 200)],
     "C07": [("access", 60, 800), ("fit", 100, 1500), ("rnext", 60, 500), ("ret", 30, 300), ("lines", 40, 400), ("mixed", 20, 200)],
     "C08": [("access", 100, 1200), ("woevt", 40, 500), ("lines", 30, 300), ("mixed", 20, 200)],
